@@ -22,13 +22,13 @@ def chunksLine (npair nthread : Nat) : String :=
   let c := chunkSize npair nthread
   let q := numChunk npair c
   let rs := (List.range q).map (fun i => s!"{chunkLo c i}:{chunkLen npair c i}")
-  s!"{c} {q} | " ++ " ".intercalate rs
+  s!"{c} {q} |" ++ String.join (rs.map (" " ++ ·))
 
 def taxelsLine (ncon nthread : Nat) : String :=
   let b := tactileBatch ncon nthread
   let q := tactileTasks ncon b
   let rs := (List.range q).map (fun t => s!"{taxelLo b t}:{taxelHi ncon b t}")
-  s!"{b} {q} | " ++ " ".intercalate rs
+  s!"{b} {q} |" ++ String.join (rs.map (" " ++ ·))
 
 def parseOp (w : String) : Option ToyOp :=
   if w = "t" then some .tid
